@@ -76,7 +76,7 @@ func c08CutRun(c c07Case) Verdict {
 	if c.Cut > len(b.stream) {
 		c.Cut = len(b.stream)
 	}
-	o := runCut(b, c.Conv, c.Cut, c.Fault, harness.Config{}, harness.Script{})
+	o := runCut(b, c.Conv, c.Cut, c.Fault, harness.Config{}, harness.Script{LogoutErr: c.LogoutErr})
 	if o.deadlock != "" {
 		return failf("deadlock", "stream cut at %d (%s): a goroutine serving the connection never finishes:\n%s", c.Cut, c.Fault, trimTo(o.deadlock, 2500))
 	}
@@ -123,12 +123,13 @@ type c08CloseCase struct {
 	Suffix    []string `json:"suffix"` // command lines buffered behind it, same segment
 	GateStart bool     `json:"gate_start,omitempty"`
 	Split     bool     `json:"split,omitempty"` // suffix in a second segment sent right after (still before the server reacts or not - unordered)
+	LogoutErr bool     `json:"logout_err,omitempty"` // the backend's Logout reports an error
 }
 
 func c08Trigger(c c08CloseCase) (pre []byte, trigger []byte, script harness.Script, cfg harness.Config) {
 	lmtp := c.Mode != 0
 	cfg = harness.Config{LMTP: lmtp, MaxLineLength: 64}
-	script = harness.Script{LMTPSession: c.Mode == 2, GateStart: c.GateStart}
+	script = harness.Script{LMTPSession: c.Mode == 2, GateStart: c.GateStart, LogoutErr: c.LogoutErr}
 	var sb strings.Builder
 	for _, l := range c.Prefix {
 		sb.WriteString(l + "\r\n")
@@ -370,6 +371,7 @@ func c08GenClose(t *rapid.T) c08CloseCase {
 		c.Split = rapid.IntRange(0, 4).Draw(t, "split") == 0 && false
 	}
 	c.GateStart = rapid.IntRange(0, 2).Draw(t, "gate_start") == 0
+	c.LogoutErr = rapid.IntRange(0, 2).Draw(t, "logout_err") == 0
 	return c
 }
 
@@ -384,11 +386,12 @@ type c08TLSCase struct {
 	// HandshakeFails: the client answers the 220 with plaintext instead of a
 	// ClientHello; the Post commands then go on in the clear
 	HandshakeFails bool `json:"handshake_fails,omitempty"`
+	LogoutErr      bool `json:"logout_err,omitempty"`
 }
 
 func c08TLSRun(c c08TLSCase) Verdict {
 	lmtp := c.Mode != 0
-	r := harness.NewRig(harness.Config{LMTP: lmtp, TLS: "starttls"}, harness.Script{LMTPSession: c.Mode == 2, GateStart: c.GateStart})
+	r := harness.NewRig(harness.Config{LMTP: lmtp, TLS: "starttls"}, harness.Script{LMTPSession: c.Mode == 2, GateStart: c.GateStart, LogoutErr: c.LogoutErr})
 	w, _ := r.Dial()
 	if st := w.WaitQuiet(); st != harness.QIdle {
 		w.Finish()
@@ -560,8 +563,9 @@ func TestC08(t *testing.T) {
 			spec := genConvSpec(rt)
 			b := buildConv(spec)
 			fault := rapid.SampledFrom([]string{"eof", "abort", "eof-with-data"}).Draw(rt, "fault")
+			logoutErr := rapid.IntRange(0, 2).Draw(rt, "logout_err") == 0
 			for cut := 0; cut <= len(b.stream); cut++ {
-				if v := c08Cuts.eval(c07Case{Conv: spec, Cut: cut, Fault: fault}); v.Fail != "" {
+				if v := c08Cuts.eval(c07Case{Conv: spec, Cut: cut, Fault: fault, LogoutErr: logoutErr}); v.Fail != "" {
 					rt.Fatalf("C08/cuts: %s", v.Fail)
 				}
 			}
@@ -576,6 +580,7 @@ func TestC08(t *testing.T) {
 		pres := [][]string{{}, {g + " a"}, {g + " a", "MAIL FROM:<s@x>"}, {g + " a", "MAIL FROM:<s@x>", "RCPT TO:<r@x>"}, {g + " a", "MAIL FROM:<s@x>", "RCPT TO:<r@x>", "BDAT 0"}}
 		posts := [][]string{{}, {g + " b"}, {g + " b", "MAIL FROM:<s2@x>", "RCPT TO:<r2@x>", "DATA", "x", "."}, {"MAIL FROM:<s2@x>"}, {g + " b", g + " c"}, {g + " b", "MAIL FROM:<s2@x>", "RCPT TO:<r2@x>", "BDAT 0"}}
 		return c08TLSCase{GateStart: rapid.Bool().Draw(rt, "gate_start"), Mode: mode, Pre: rapid.SampledFrom(pres).Draw(rt, "pre"), Post: rapid.SampledFrom(posts).Draw(rt, "post"),
-			End: rapid.SampledFrom([]string{"quit", "eof"}).Draw(rt, "end"), HandshakeFails: rapid.IntRange(0, 2).Draw(rt, "handshake_fails") == 0}
+			End: rapid.SampledFrom([]string{"quit", "eof"}).Draw(rt, "end"), HandshakeFails: rapid.IntRange(0, 2).Draw(rt, "handshake_fails") == 0,
+			LogoutErr: rapid.IntRange(0, 2).Draw(rt, "logout_err") == 0}
 	})
 }
